@@ -16,6 +16,7 @@ def run(ctx, rep):
     rep.notes.append("Does not decide conservation of r + span, correctness of nudge/bubble, total's floating-point accuracy or compare's order.")
     rel_guard(rep, prog)
     window(rep, prog)
+    week_carry(rep, prog)
     rounded_output(rep, prog)
     no_overwrite(rep, prog)
     run_float(ctx, rep)
@@ -123,6 +124,45 @@ def window(rep, prog, rule="WINDOW"):
         rep.ok(rule, "clamp_relative_span", how="(rel + span, rel + span{unit += amount})")
     else:
         rep.violation(rule, "clamp_relative_span", "window ends are %s" % (show(oks[0], maxd=7)[:400] if oks else show(r, maxd=4)[:300]), f.loc())
+
+
+def week_carry(rep, prog, rule="WEEK-CARRY"):
+    """whole weeks that the balanced difference carries in its days"""
+    rep.rule(rule, "Nudge::relative_calendar positions the rounding window at reference + (balanced span truncated to the smallest "
+                   "unit). `balanced` is the difference reference..end balanced up to `largest`; when largest is above Week that "
+                   "difference has no weeks - its whole weeks are in the days (the until() routines produce weeks only for "
+                   "largest == Week). For smallest == Week the unit count that positions the window therefore includes the days: "
+                   "the span handed to clamp_relative_span is built from a count whose term reads balanced's days (divided by 7) "
+                   "under the guard smallest == Week. Without it the window is always the first `increment` weeks after the "
+                   "months, the quotient is extrapolated from that week's length, and a DST shift inside the span pushes exact "
+                   "multiples (3 weeks = 505 h against a 168 h week) to the wrong neighbour")
+    f = prog.fns.get("jiff::span::Nudge::relative_calendar")
+    if f is None:
+        rep.anchor_missing("span::Nudge::relative_calendar")
+        return
+    T = Terms(f)
+    calls = [(bi, t) for bi, t in mir.iter_calls(f) if t.get("path", "").endswith("span::clamp_relative_span")]
+    if not calls:
+        rep.violation(rule, "relative_calendar", "anchor missing: no call of clamp_relative_span", f.loc())
+        return
+    for bi, t in calls:
+        a = T.at_call(bi, t, 1)
+        loc = "%s:%s" % (t["span"]["file"], t["span"]["line"])
+        reads_days = False
+        for x in walk(a):
+            if is_call(x, "Span::get_days_ranged") or is_call(x, "Span::get_days"):
+                reads_days = True
+            if is_call(x, "Span::get_units_ranged") and len(x[2]) == 2 and x[2][1][0] == "agg" and x[2][1][2] == "Day":
+                reads_days = True
+            if isinstance(x, tuple) and x and x[0] == "field" and x[2] == "days":
+                reads_days = True
+        has7 = any(isinstance(x, tuple) and x and x[0] == "const" and x[1] == 7 for x in walk(a))
+        if reads_days and has7:
+            rep.ok(rule, "relative_calendar", how="the unit count of the window start reads balanced's days / 7", loc=loc)
+        else:
+            rep.violation(rule, "relative_calendar", "the span that positions the rounding window takes its count of `smallest` units from "
+                          "that unit's own field only (%s): for smallest == Week and largest above Week the whole weeks carried in "
+                          "balanced's days are dropped" % show(a, maxd=6)[:200], loc)
 
 
 def rounded_output(rep, prog, rule="ROUNDED-OUTPUT"):
